@@ -5,3 +5,8 @@ claim("C22",
       "explicit-state BFS closure of the real Controller against a reference joypad model",
       "The complete reachable state space of the controller (raw JOYP byte x direction inputs x button inputs) is closed breadth-first under all 16 press/release events and all 256 JOYP writes, every transition executed on the real Mapper/Controller and compared with an independent reference model; unbounded depth, so within the alphabet the property is decided, not sampled.",
       "Trusted: ref/joyp.go (written from Pan Docs), the completeness of the state key (the struct's three fields). The GL key mapping is outside the check.")
+
+claim("C25",
+      "exhaustive enumeration of instance-step interleavings on the real code, differential against solo runs",
+      "Every interleaving of 2 instances x 5 steps and 3 x 2 (thorough: 2 x 8 and 3 x 4; steps of 1, 7, 61 and 17,556 machine cycles), under three creation orders (all first / lazily / an extra instance created mid-run), is executed on real instances wired like gameboy.New; after every step every live instance must equal its own solo run at the same step count (registers and reads; all writable regions and the frame at the end). The schedule space is enumerated completely within the stated shape.",
+      "Schedules are explored in one goroutine under a supervisor process so that a shared-state defect fails deterministically (including the emulator's own os.Exit). Memory-model-level data races between truly parallel instances are outside a cooperative schedule enumeration; package-level mutable state is what the interleavings expose.")
